@@ -137,6 +137,9 @@ func srGenHistory(rng *rand.Rand, ver string, n int) *srHist {
 	for i := 0; i < nu; i++ {
 		h.users = append(h.users, fmt.Sprintf("@u%d:%s", i, srOrigin))
 	}
+	// some rooms are restricted-join rooms from the start (many joins with an authorising user)
+	restrictedRoom := rng.Intn(5) == 0
+	restrictedJR := `{"allow":[{"room_id":"!other:h","type":"m.room_membership"}],"join_rule":"restricted"}`
 	ts0 := int64(1000 + rng.Intn(1000))
 	tsSpread := []int64{3, 8, 50}[rng.Intn(3)]
 	// create
@@ -290,10 +293,13 @@ func srGenHistory(rng *rand.Rand, ver string, n int) *srHist {
 		case step == 3 && rng.Intn(10) < 7:
 			sender = h.users[0]
 			typ, sk, content = spec.MRoomJoinRules, strp(""), `{"join_rule":"public"}`
+			if restrictedRoom {
+				content = restrictedJR
+			}
 			keys = [][2]string{kCreate, kPL, kM(sender)}
 		case kind < 22: // self join
 			typ, sk, content = spec.MRoomMember, strp(sender), `{"membership":"join"}`
-			if jr, ok := base[kJR]; ok && strings.Contains(string(h.evs[jr].Content()), `"restricted"`) && len(joined) > 0 && rng.Intn(2) == 0 {
+			if jr, ok := base[kJR]; ok && strings.Contains(string(h.evs[jr].Content()), `"restricted"`) && len(joined) > 0 && rng.Intn(4) != 0 {
 				via := joined[rng.Intn(len(joined))]
 				content = fmt.Sprintf(`{"join_authorised_via_users_server":%q,"membership":"join"}`, via)
 				keys = [][2]string{kCreate, kPL, kJR, kM(sender), kM(via)}
@@ -352,9 +358,9 @@ func srGenHistory(rng *rand.Rand, ver string, n int) *srHist {
 			keys = [][2]string{kCreate, kPL, kM(sender)}
 		case kind < 76: // join rules
 			typ, sk = spec.MRoomJoinRules, strp("")
-			jr := []string{"public", "invite", "public", "invite", "knock", "restricted"}[rng.Intn(6)]
+			jr := []string{"public", "invite", "public", "invite", "knock", "restricted", "restricted"}[rng.Intn(7)]
 			content = fmt.Sprintf(`{"join_rule":%q}`, jr)
-			if jr == "restricted" {
+			if jr == "restricted" || restrictedRoom && rng.Intn(2) == 0 {
 				content = `{"allow":[{"room_id":"!other:h","type":"m.room_membership"}],"join_rule":"restricted"}`
 			}
 			keys = [][2]string{kCreate, kPL, kM(sender)}
